@@ -17,7 +17,6 @@ Positions are partitioned into zones, and generator features into separate claus
 defect does not mask everything else; the oracle is the same everywhere and every position is in some clause.
 """
 import json
-import random
 
 from .common import Clause, run_parallel
 from . import c10_gen as G
@@ -153,8 +152,8 @@ def _tiny(nmax):
 
 def run(tier, seed):
     quick = tier == 'quick'
-    ntrees, size = (300, 12) if quick else (5000, 40)
-    nsmall = 150 if quick else 1500
+    ntrees, size = (300, 12) if quick else (3000, 40)
+    nsmall = 150 if quick else 750
     out = []
 
     def rnd(name, feats, zoneset, count, sz, what):
